@@ -9,6 +9,7 @@ All statements hold for every forest, every fault plan and every combination of 
 import Scalibr.Proofs.WalkTop
 import Scalibr.Proofs.WalkMore
 import Scalibr.Model.Gitignore
+import Scalibr.Proofs.WalkSubdir
 namespace Scalibr.Walk
 
 /-- The extraction attempts of a scan are exactly the ones the specification lists — as a list: in
@@ -56,6 +57,34 @@ theorem C01_inv_spec (c : Cfg) (hb : Benign c) (roots : List (Node × Faults)) (
     (run c roots).pkgs = pkgsOfCalls c (mustExtract c roots) :=
   (run_results c hb roots ho).1
 
+/-- Sub-directory equivalence (specification level): on a tree with distinct sibling names, in a
+whole-tree configuration without the sub-directory cut-off, if the whole-tree scan reaches directory `d`
+(every directory above it lets the walk through: `dirPasses` along the chain leading to `d`), then
+requesting `d` explicitly owes exactly the whole-tree scan's attempts that lie under `d`, in order. -/
+theorem C01_subdir_spec (c : Cfg) (hp : c.paths = []) (hisd : c.ignoreSubDirs = false) (f : Faults)
+    (root : Node) (hdn : DistinctNames root) (d : Path) (gi : Option PatSet) (es : List (String × Node))
+    (chain : List DirInfo) (hch : chainOf [] root d = some (chain, .dir gi es))
+    (hreach : ∀ i, i < chain.length → dirPasses c f [] chain i = true)
+    (hs0 : f.statFail [] = false) (hsd : f.statFail d = false) :
+    mustRequested { c with paths := [d] } f root d = (mustRoot c f root).filter (fun cl => under d cl.path) :=
+  mustRequested_subdir c hp hisd f root hdn d gi es chain hch hreach hs0 hsd
+
+/-- … and for the engine: the scan that requests `d` makes exactly the attempts of the whole-tree scan
+that lie under `d`. -/
+theorem C01_subdir (c : Cfg) (hb : Benign c) (ho : GiOK c) (hp : c.paths = []) (hisd : c.ignoreSubDirs = false)
+    (f : Faults) (root : Node) (hdn : DistinctNames root) (d : Path) (gi : Option PatSet) (es : List (String × Node))
+    (chain : List DirInfo) (hch : chainOf [] root d = some (chain, .dir gi es))
+    (hreach : ∀ i, i < chain.length → dirPasses c f [] chain i = true)
+    (hs0 : f.statFail [] = false) (hsd : f.statFail d = false) :
+    (run { c with paths := [d] } [(root, f)]).calls = (run c [(root, f)]).calls.filter (fun cl => under d cl.path) := by
+  have hb' : Benign { c with paths := [d] } := hb
+  have ho' : GiOK { c with paths := [d] } := ho
+  rw [(run_spec _ hb' [(root, f)] ho').2, (run_spec c hb [(root, f)] ho).2]
+  have := C01_subdir_spec c hp hisd f root hdn d gi es chain hch hreach hs0 hsd
+  simp only [mustExtract, List.flatMap_cons, List.flatMap_nil, List.append_nil]
+  rw [← this]
+  simp [mustRoot]
+
 /-- The concrete go-git matcher of the generated pattern sub-language satisfies the domain rule the
 theorems rely on. -/
 theorem C01_matcher_domainLaw : DomainLaw matcherMatch := matcherMatch_domain
@@ -77,6 +106,8 @@ example : Benign exCfg := ⟨rfl, rfl, rfl, rfl, fun _ _ => rfl⟩
 example : DistinctNames exTree := by simp [exTree, DistinctNames, DistinctNamesL]
 theorem exGiOK : GiOK exCfg := matcherMatch_domain
 example : (mustExtract exCfg [(exTree, {})]).map (fun cl => (cl.ext, cl.path)) = [(0, ["a", "x"]), (1, ["a", "x"])] := by decide
+example : ((chainOf [] exTree ["a"]).map fun x => x.1.map (·.path)) = some [[]] := by decide
+example : dirPasses exCfg {} [] [⟨[], none, 0⟩] 0 = true := by decide
 example : (run exCfg [(exTree, {})]).calls = mustExtract exCfg [(exTree, {})] :=
   (C01_calls exCfg ⟨rfl, rfl, rfl, rfl, fun _ _ => rfl⟩ _ exGiOK).2
 
